@@ -117,13 +117,19 @@ impl Vm {
                 self.acc = self.heap.put(VCell::pair(car.as_ptr()?, cdr.as_ptr()?));
             }
 
-            // The VPushAcc opcode represents a primitive instruction for pushing an an element in
-            // %acc on to the vector at the top of the stack.
+            // The VPushAcc opcode represents a primitive instruction for appending the element in
+            // %acc to the vector at the top of the stack. The result is a newly allocated vector:
+            // the vector a quasiquote template starts from is a compile time constant shared by
+            // every evaluation of the template and must not be modified.
             OpCode::VPushAcc => {
                 let vector_ptr = self.heap.get(self.stack.pop()?);
                 let vector = vector_ptr.as_vector()?;
-                vector.push(self.acc.clone());
-                self.acc = vector_ptr;
+                let mut elements = Vec::with_capacity(vector.len() + 1);
+                for idx in 0..vector.len() {
+                    elements.push(vector.get(idx).unwrap());
+                }
+                elements.push(self.acc.clone());
+                self.acc = self.heap.put(VCell::vector(elements));
             }
 
             // Procedure Application
